@@ -1,4 +1,1 @@
 package main
-
-// runThorough is filled in by thorough_impl.go
-func runThorough(prop, repo, verif string) int { return thoroughImpl(prop, repo, verif) }
